@@ -1,5 +1,6 @@
 import UwgVerif.Drv.Proto
 import UwgVerif.Model.AirNodes
+import UwgVerif.Model.UrbFlux
 import UwgVerif.Model.Symbols
 open Uwg Uwg.Proto Uwg.Air
 
@@ -60,6 +61,87 @@ def parseUbl (a : Args) : Option (UblIn ℚ) := do
     charLength := charLength, ublTemp := ← r "ublTemp", cells := ← a.rats? "cells",
     count := loopCount charLength paralLength, rsm := rsm }
 
+/-! ### where the weights come from (`Model/UrbFlux.lean`) -/
+
+def urbErrName : Urb.Err → String
+  | .zerodiv => "err zerodiv" | .index => "err index" | .value => "err value"
+  | .type => "err type"
+
+def canyonErrName : Canyon.Err → String
+  | .zerodiv => "err zerodiv" | .value => "err value"
+
+def parseUrb (a : Args) : Option (Urb.UrbIn ℚ) := do
+  let r := fun k => a.rat? k
+  let rsm : Rsm ℚ := {
+    nzref := ← a.nat? "nzref", nzfor := ← a.nat? "nzfor",
+    densityProfC := ← a.rats? "densityProfC", dz := ← a.rats? "dz", z := ← a.rats? "z",
+    tempProf := ← a.rats? "tempProf", windProf := ← a.rats? "windProf" }
+  pure {
+    rsm := rsm, z0r := ← r "z0r", paralLength := ← r "paralLength", ublTemp := ← r "ublTemp",
+    urbArea := ← r "urbArea", wind := ← r "wind", pres := ← r "pres", cp := ← r "cp",
+    windHeight := ← r "windHeight", vk := ← r "vk", g := ← r "g", exCoeff := ← r "exCoeff",
+    canTemp := ← r "canTemp", canHum := ← r "canHum", bldHeight := ← r "bldHeight",
+    z0u := ← r "z0u", lDisp := ← r "lDisp", sensHeat := ← r "sensHeat",
+    verToHor := ← r "verToHor", windProf0 := ← a.rats? "windProf0" }
+
+def parseUcmInit (a : Args) : Option (Urb.UcmInitIn ℚ) := do
+  let r := fun k => a.rat? k
+  pure {
+    bldHeight := ← r "h", bldDensity := ← r "dens", verToHor := ← r "vth",
+    treeCoverage := ← r "tree", roadVeg := ← r "veg", roadAlbedo := ← r "ralb",
+    initialWind := ← r "wind", windMin := ← r "windMin", rGlaze := ← r "rglaze",
+    shgc := ← r "shgc", albWall := ← r "walb" }
+
+def stepInputs (op : String) (a : Args) : String :=
+  match op with
+  | "urb" =>
+    match parseUrb a with
+    | some x =>
+      match Urb.urbTail stubQ x with
+      | .ok o => "ok " ++ fmtRatList [o.advHeat, o.ustar, o.ustarMod, o.uExch, o.canWind, o.turbU,
+                                      o.turbV, o.turbW] ++ " " ++ fmtRatList o.windProf
+      | .error e => urbErrName e
+    | none => "bad-args"
+  | "surf" =>
+    match a.rat? "pres", a.rat? "tempRef", a.rat? "humRef", a.rat? "windRef" with
+    | some p, some t, some q, some w =>
+      match Urb.surfHead p t q w with
+      | .ok (_, ac) => "ok " ++ fmtRat ac
+      | .error e => urbErrName e
+    | _, _, _, _ => "bad-args"
+  | "ucminit" =>
+    match parseUcmInit a with
+    | some i =>
+      match Urb.ucmInit stubQ i with
+      | .ok o =>
+        let g := o.geom
+        "ok " ++ fmtRatList [g.vegcover, g.roadShad, g.bldWidth, g.canWidth, g.canAspect,
+          g.roadConf, g.wallConf, g.facArea, g.roadArea, g.roofArea] ++ " " ++
+          fmtRatList [o.ublWind, o.canWind, o.ustar, o.ustarMod, o.z0u, o.lDisp, o.facAbsor,
+            o.roadAbsor]
+      | .error e => canyonErrName e
+    | none => "bad-args"
+  | "ublinit" =>
+    match a.rat? "charLength", a.rat? "maxdx" with
+    | some l, some m =>
+      match Urb.ublInit l m with
+      | .ok g => "ok " ++ fmtRatList [g.perimeter, g.urbArea, g.orthLength, g.paralLength] ++
+          s!" numdx={g.numdx} ncells={g.ncells} count=" ++
+          (match loopCount l g.paralLength with
+           | some n => toString n
+           | none => "zerodiv")
+      | .error e => urbErrName e
+    | _, _ => "bad-args"
+  | "rsmwind" =>
+    match a.rat? "ustarRur", a.rat? "vk", a.rat? "disp", a.rat? "z0r", a.nat? "nzref",
+        a.rats? "z", a.rats? "old" with
+    | some u, some vk, some disp, some z0r, some n, some zs, some old =>
+      match Urb.rsmWindLoop stubQ u vk disp z0r n zs old with
+      | .ok l => "ok " ++ fmtRatList l
+      | .error e => urbErrName e
+    | _, _, _, _, _, _, _ => "bad-args"
+  | _ => "bad-op"
+
 def stepC15 (line : String) : String :=
   let (op, a) := parseLine line
   match op with
@@ -96,6 +178,6 @@ def stepC15 (line : String) : String :=
             if b'.charLength = 0 then "err zerodiv"
             else "ok " ++ fmtRat t ++ " " ++ fmtRatList cs
     | _, _, _ => "bad-args"
-  | _ => "bad-op"
+  | _ => stepInputs op a
 
 def main : IO Unit := loop stepC15
